@@ -242,6 +242,15 @@ class DataPath:
                 parts.append(simple)
         return parts
 
+    def to_spec(self):
+        """Get a single-item dict that `DataPath.from_spec` converts back to this path."""
+        key = ["path"]
+        if self.MULTI_TYPE.value:
+            key.append(self.MULTI_TYPE.name.lower())
+        if self.DATUM_TYPE.value:
+            key.append(self.DATUM_TYPE.name.lower())
+        return {".".join(key): self.to_part_specs()}
+
     @classmethod
     def from_str(cls, path_str, delimiter="/"):
         if path_str:
